@@ -11,6 +11,11 @@ from ..kernel import World, Violation, Discard, SutError, arr_rng
 from .. import meshlib, simlib, refs, seams
 
 ISO_ONLY = ("Amor", "Miehe", "Stress")
+# diagonal strain patterns with repeated principal values (per number of displacement components)
+HOMOG = {
+    2: [(1, 1), (-1, -1), (1, 0), (0, -1), (1, -1), (1, 2)],
+    3: [(1, 1, 1), (-1, -1, -1), (0, -1, 0), (1, 1, -2), (-1, 0.3, 0.3), (1, -0.3, -0.3), (1, 0, 0), (1, 2, 3)],
+}
 
 
 def make_pf_model(p):
@@ -84,6 +89,7 @@ class PfWorld(World):
         self.tagA, self.tagB = self.tags[pair[0]], self.tags[pair[1]]
         self.load = (0.0, 0.0)
         self.rigid = (0.0, 0.0)  # translation added to both sides: strains at round-off level, not exactly zero
+        self.homog = None  # (pattern, amplitude): every node is prescribed u = A x with repeated principal strains
         with ctx.sut():
             self.un = list(self.sim.Get_unknowns(self.sim.ProblemTypes.elastic))
         self._apply_load()
@@ -102,14 +108,27 @@ class PfWorld(World):
         with self.ctx.sut():
             sim.Bc_Init()
             m = sim.mesh
-            pad = [0.0] * (len(self.un) - 2)
-            tx, ty = self.rigid
-            sim.add_dirichlet(m.Nodes_Tags(self.tagA), [float(tx), float(ty)] + pad, self.un)
-            sim.add_dirichlet(m.Nodes_Tags(self.tagB), [float(ux + tx), float(uy + ty)] + pad, self.un)
+            if self.homog is not None:
+                # a homogeneous strain state with repeated principal values (equibiaxial, confined, hydrostatic, ...)
+                A = np.diag(HOMOG[len(self.un)][self.homog[0]]) * self.homog[1]
+                X = np.asarray(m.coord)[:, : len(self.un)]
+                U = X @ A.T
+                nodes = np.arange(m.Nn)
+                for k, comp in enumerate(self.un):
+                    sim.add_dirichlet(nodes, [U[:, k].copy()], [comp])
+            else:
+                self._apply_sides(sim, m)
             if self.p["regularization"] == "AT1" and self.p["solver"] != "BoundConstrain" and self.ctx.avoids("at1-singular-damage-system"):
                 # listed finding: without it the AT1 damage system is singular whenever psi+ vanishes everywhere.
                 # A damage-free clamp keeps the system regular so that the rest of the history can be explored.
                 sim.add_dirichlet(m.Nodes_Tags(self.tagA), [0.0], ["d"], problemType=sim.ProblemTypes.damage)
+
+    def _apply_sides(self, sim, m):
+        ux, uy = self.load
+        pad = [0.0] * (len(self.un) - 2)
+        tx, ty = self.rigid
+        sim.add_dirichlet(m.Nodes_Tags(self.tagA), [float(tx), float(ty)] + pad, self.un)
+        sim.add_dirichlet(m.Nodes_Tags(self.tagB), [float(ux + tx), float(uy + ty)] + pad, self.un)
 
     # ------------------------------------------------------------------
     def gen_op(self, rng, frng):
@@ -122,7 +141,9 @@ class PfWorld(World):
             if self.cfg.get("zero_history"):
                 op.update(mode="zero")
             else:
-                op.update(mode=["increase", "increase", "decrease", "reverse", "zero", "shear", "rigid"][int(rng.integers(7))], amp=float(np.round(rng.uniform(0.005, 0.06), 4)))
+                op.update(mode=["increase", "increase", "decrease", "reverse", "zero", "shear", "rigid", "homog"][int(rng.integers(8))], amp=float(np.round(rng.uniform(0.005, 0.06), 4)))
+                if op["mode"] == "homog":
+                    op["pattern"] = int(rng.integers(8))
         elif name == "solve":
             op.update(tolConv=[1.0, 0.5, 1e-1, 1e-2][int(rng.integers(4))], maxIter=int(rng.integers(2, 12)), convOption=int(rng.integers(0, 4)))
             if self.cfg.get("faults") and frng.random() < 0.3:
@@ -168,6 +189,60 @@ class PfWorld(World):
         if not refs.maxabs(pP + pM - psi) <= 1e-9 * ps:
             raise Violation("split-does-not-sum-to-energy", f"{what}: |psi+ + psi- - 1/2 eps:C:eps| = {refs.maxabs(pP + pM - psi):.3e} (scale {ps:.3e}) [{self.p['split']}]")
         ctx.checked()
+        self._check_projectors(what, eps, "strain")
+        self._check_projectors(what, sig, "stress")
+
+    SPECTRAL = "_PhaseField__Spectral_Decomposition"
+
+    def _check_projectors(self, what, vec, name):
+        """'The spectral projectors agree with an independent eigen-decomposition', on the tensors the history visits:
+        P+ . v must be the Kelvin-Mandel vector of V <w>+ V^T (numpy.linalg.eigh of the tensor), P+ + P- the identity."""
+        model, ctx = self.model, self.ctx
+        fn = getattr(model, self.SPECTRAL, None)
+        if fn is None:
+            ctx.probe("projector_check_unavailable")
+            return
+        from EasyFEA.FEM._linalg import FeArray
+
+        vec = np.asarray(vec, dtype=float)
+        try:
+            with ctx.sut():
+                projP, projM = fn(FeArray.asfearray(vec.copy()), False)
+                coef = float(model.material.coef)
+        except SutError as e:
+            raise Violation("split-raises", f"{what}: the spectral decomposition of a {name} state of the history raised {e}", e.site)
+        projP, projM = np.asarray(projP), np.asarray(projM)
+        n = vec.shape[-1]
+        dim = 2 if n == 3 else 3
+        T = np.zeros(vec.shape[:2] + (dim, dim))
+        for d in range(dim):
+            T[..., d, d] = vec[..., d]
+        pairs = [(0, 1, 2)] if dim == 2 else [(1, 2, 3), (0, 2, 4), (0, 1, 5)]
+        for i, j, k in pairs:
+            T[..., i, j] = T[..., j, i] = vec[..., k] / coef
+        w, V = np.linalg.eigh(T)
+        Tp = np.einsum("epik,epk,epjk->epij", V, np.maximum(w, 0.0), V)
+        ref = np.zeros_like(vec)
+        for d in range(dim):
+            ref[..., d] = Tp[..., d, d]
+        for i, j, k in pairs:
+            ref[..., k] = Tp[..., i, j] * coef
+        if not (np.all(np.isfinite(projP)) and np.all(np.isfinite(projM))):
+            raise Violation("split-not-finite", f"{what}: spectral projectors of a {name} state of the history are NaN/Inf (max|v| {refs.maxabs(vec):.3e}, principal values of the worst point {w[~np.isfinite(projP).all(axis=(-2, -1))][0].tolist() if (~np.isfinite(projP).all(axis=(-2, -1))).any() else '?'})")
+        got = np.einsum("epij,epj->epi", projP, vec)
+        gotM = np.einsum("epij,epj->epi", projM, vec)
+        scale = np.maximum(np.abs(vec).max(axis=-1, keepdims=True), 1e-300)
+        err = np.abs(got - ref) / scale
+        if err.max() > 1e-7:
+            e_, p_ = np.unravel_index(np.argmax(err.max(axis=-1)), err.shape[:2])
+            raise Violation("projector-differs-from-eigendecomposition", f"{what}: P+ applied to a {name} state differs from the positive part given by numpy.linalg.eigh by {err.max():.3e} (relative); principal values of that point {w[e_, p_].tolist()}, element {e_} point {p_} [{self.p.get('dim', 2)}D]")
+        if (np.abs(got + gotM - vec) / scale).max() > 1e-7:
+            raise Violation("projector-differs-from-eigendecomposition", f"{what}: (P+ + P-) v != v for a {name} state ({(np.abs(got + gotM - vec) / scale).max():.3e} relative)")
+        ctx.checked()
+        gaps = np.sort(w, axis=-1)
+        rel_gap = np.min(np.diff(gaps, axis=-1), axis=-1) / np.maximum(np.abs(w).max(axis=-1), 1e-300)
+        if (rel_gap < 1e-9).any():
+            ctx.probe("projector_checked_on_repeated_principal_values")
 
     def apply(self, op):
         ctx, sim = self.ctx, self.sim
@@ -176,6 +251,8 @@ class PfWorld(World):
         if name == "load":
             ux, uy = self.load
             m = op["mode"]
+            if m != "homog":
+                self.homog = None
             if m == "increase":
                 uy = uy + op["amp"] if uy >= 0 else uy - op["amp"]
             elif m == "decrease":
@@ -186,6 +263,11 @@ class PfWorld(World):
                 ux, uy = 0.0, 0.0
             elif m == "shear":
                 ux = ux + op["amp"]
+            elif m == "homog":
+                pats = HOMOG[len(self.un)]
+                self.homog = (op["pattern"] % len(pats), op["amp"] * 0.2)
+                self.zero = False
+                ctx.probe("homogeneous_degenerate_strain")
             elif m == "rigid":
                 self.rigid = (float(np.round(self.rigid[0] + op["amp"] * 1.7, 6)), float(np.round(self.rigid[1] - op["amp"] * 0.9, 6)))
                 # "no loading" is taken literally (every prescribed value zero): a translation is a non-zero prescribed
